@@ -117,7 +117,8 @@ def _get_column_table_datatype(config, source_name, table_name, column_name):
         return None
 
     data_type = data_type.upper()
-    for k, v in SQL_RDF_DATATYPE.items():
+    # longer (more specific) type names take precedence, e.g. TIMESTAMP over TIME and DATETIME over DATE
+    for k, v in sorted(SQL_RDF_DATATYPE.items(), key=lambda item: len(item[0]), reverse=True):
         if k in data_type:
             return v
     return None
